@@ -506,6 +506,17 @@ package internals
 //@   ensures result1 != nil ==> result1.Code != ""
 //@   ensures provider_is_no_factory: !istype(box(result0), DpFactory)
 
+// A struct used as input: a field is readable iff reflection may hand it out (exported); otherwise it is absent.
+//@ func (*StructDataProvider).Get(s, key)
+//@   unfold built_over_a_struct: s != nil && rv_kind(s.value) == 25
+//@   pure
+//@   ensures[C14] unreadable_is_absent: !rv_caniface(rv_field(s.value, key)) ==> result == nil
+
+// Named map types (type H map[string]any) are converted to the unnamed type before the assertion; never a panic.
+//@ func mapProviderOf(x, val)
+//@   requires[C06] valid_value: rv_iface(x) != nil
+//@   pure
+
 // dptag NAMES the tag field of a map provider (set once at construction, never written afterwards).
 //@ func NewMapDataProvider(m, tag)
 //@   trusted
